@@ -37,22 +37,22 @@ def build(C):
         ('X5', 'Arc<Config>', 'Config', 1), ('X5', 'Arc<Endpoint>', 'Endpoint', 1),
         ('X5', 'mpsc::Sender<ConnectionManagerRequest>', 'Mailbox', 1)])
     t += 'impl NetworkInner {\n'
-    t += C.fn(NET, 'impl NetworkInner :: fn disconnect', 'NetworkInner::disconnect', ['C09'], ret='r', sig_rewrites=[('&self', '&mut self')], spec='''
+    t += C.fn(NET, 'impl NetworkInner :: fn disconnect', 'NetworkInner::disconnect', ['C09', 'C08'], ret='r', sig_rewrites=[('&self', '&mut self')], spec='''
     ensures
         old(self).active_peers.live ==> r is Ok && final(self).active_peers.set.0.view() =~~= rm_spec(old(self).active_peers.set.0.view(), peer_id, DisconnectReason::Requested), // @OBL NetworkInner::disconnect::removes_at_once_with_requested [C09] an explicit disconnect removes the peer locally at once, closes that connection and announces exactly LostPeer(peer, Requested) (nothing if the peer was not connected)
         old(self).active_peers.live ==> final(self).active_peers.set.1@ == old(self).active_peers.set.1@ + 1, // @OBL NetworkInner::disconnect::one_critical_section [C09] ... in one critical section
-        !old(self).active_peers.live ==> r is Err && final(self).active_peers == old(self).active_peers, // @OBL NetworkInner::disconnect::closed_network_errors [C09] on a network that has shut down the call fails and changes nothing
+        !old(self).active_peers.live ==> r is Err && final(self).active_peers == old(self).active_peers, // @OBL NetworkInner::disconnect::closed_network_errors [C09,C08] on a network that has shut down the call fails and changes nothing
 ''')
-    t += C.fn(NET, 'impl NetworkInner :: fn peer', 'NetworkInner::peer', ['C09'], ret='r', sig_rewrites=[('&self', '&mut self')], spec='''
+    t += C.fn(NET, 'impl NetworkInner :: fn peer', 'NetworkInner::peer', ['C09', 'C08'], ret='r', sig_rewrites=[('&self', '&mut self')], spec='''
     ensures
-        r is Some <==> (old(self).active_peers.live && old(self).active_peers.set.0.connections@.contains_key(peer_id)), // @OBL NetworkInner::peer::listed_iff_connected [C09] a peer handle is handed out iff that peer is in the connected set right now
+        r is Some <==> (old(self).active_peers.live && old(self).active_peers.set.0.connections@.contains_key(peer_id)), // @OBL NetworkInner::peer::listed_iff_connected [C09,C08] a peer handle is handed out iff that peer is in the connected set right now
         r is Some ==> r->Some_0.connection == old(self).active_peers.set.0.connections@[peer_id], // @OBL NetworkInner::peer::uses_registered_connection [C09,C04] RPCs to a peer go over the one registered connection of that peer
         final(self).active_peers.set.0 == old(self).active_peers.set.0, // @OBL NetworkInner::peer::read_only [C09] looking a peer up changes nothing
         r is Some ==> r->Some_0.layer == old(self).outbound_request_layer, // @OBL NetworkInner::peer::carries_the_network_outbound_layer [C11] every peer handle a network hands out sends its RPCs through the network's outbound layer stack (the one Builder::start built with the configured default timeout)
 ''')
-    t += C.fn(NET, 'impl NetworkInner :: fn rpc', 'NetworkInner::rpc', ['C09'], ret='r', sig_rewrites=[('&self', '&mut self')], spec='''
+    t += C.fn(NET, 'impl NetworkInner :: fn rpc', 'NetworkInner::rpc', ['C09', 'C08'], ret='r', sig_rewrites=[('&self', '&mut self')], spec='''
     ensures
-        !(old(self).active_peers.live && old(self).active_peers.set.0.connections@.contains_key(peer_id)) ==> r is Err, // @OBL NetworkInner::rpc::fails_when_not_connected [C09] after a disconnect (and generally whenever the peer is not in the connected set) an RPC to it fails instead of being sent
+        !(old(self).active_peers.live && old(self).active_peers.set.0.connections@.contains_key(peer_id)) ==> r is Err, // @OBL NetworkInner::rpc::fails_when_not_connected [C09,C08] after a disconnect (and generally whenever the peer is not in the connected set) an RPC to it fails instead of being sent
         final(self).active_peers.set.0 == old(self).active_peers.set.0, // @OBL NetworkInner::rpc::leaves_the_connected_set_alone [C04,C05,C09] sending a request, whatever its outcome, neither registers nor removes nor closes a connection: a request that fails on a replaced connection cannot evict the replacement
 ''')
     t += '}\n'
